@@ -97,6 +97,59 @@ class Builder:
                 rec.rec("ucall", "pure", name, ev_type(args.get("event")), ev_tag(args.get("event")))
                 return copy.copy(ret)
             return f_pure
+        if k == "cmd":
+            # pure getter: the actions to run are carried by the triggering event's payload
+            def f_cmd(args):
+                rec.user_call("fn", name)
+                ev = args.get("event")
+                p = getattr(ev, "payload", None) or {}
+                acts = p.get("acts") or []
+                rec.rec("ucall", "cmd", name, p.get("tag"), len(acts))
+                return self.mat(copy.deepcopy(acts))
+            return f_cmd
+        if k == "relay":
+            # event spec callable: an event of spec['type'] carrying the tag of the triggering event
+            etype = spec["type"]
+            extra = spec.get("extra") or {}
+
+            def f_relay(args):
+                rec.user_call("fn", name)
+                ev = args.get("event")
+                p = getattr(ev, "payload", None) or {}
+                d = {"type": etype, "tag": p.get("tag")}
+                d.update(extra)
+                return d
+            return f_relay
+        if k == "pure_self":
+            # a pure getter that re-enqueues the action that contains it (self-feeding expansion)
+            limit = spec.get("limit")
+            holder = {}
+            marker = spec.get("marker")
+
+            def f_pure_self(args):
+                rec.user_call("fn", name)
+                n = holder["n"] = holder.get("n", 0) + 1
+                rec.rec("ucall", "pure-self", name, n)
+                out = [marker] if marker else []
+                if limit is None or n < limit:
+                    out.append({"type": "xstate.pure", "params": {"get": f_pure_self}})
+                return out
+            f_pure_self.reset = lambda: holder.clear()
+            return f_pure_self
+        if k == "enq_self":
+            limit = spec.get("limit")
+            holder = {}
+            marker = spec.get("marker")
+
+            def f_enq_self(args):
+                rec.user_call("fn", name)
+                n = holder["n"] = holder.get("n", 0) + 1
+                rec.rec("ucall", "enq-self", name, n)
+                if marker:
+                    args["enqueue"](marker)
+                if limit is None or n < limit:
+                    args["enqueue"]({"type": "xstate.enqueueActions", "params": {"callback": f_enq_self}})
+            return f_enq_self
         if k == "enq":
             items = self.mat(spec.get("items", []))
             checks = self.mat(spec.get("checks", []))  # list of [guardcfg, item]
